@@ -61,12 +61,12 @@ const (
 )
 
 // used to ref object,list,map
-type _refElem struct {
-	// record the kind of target, objects are the same only if the address and kind are the same
-	kind reflect.Kind
+// the address alone is ambiguous: a slice and its first element, a struct
+// and its first field share one, so the type is part of the key
+type _refKey struct {
+	addr unsafe.Pointer
 
-	// ref index
-	index int
+	typ reflect.Type
 }
 
 func refTag(tag byte) bool {
@@ -85,6 +85,7 @@ func (e *Encoder) writeRef(index int) (int, error) {
 func (e *Encoder) checkEncodeRefMap(v reflect.Value) (int, bool) {
 	var (
 		kind reflect.Kind
+		typ  reflect.Type
 		addr unsafe.Pointer
 	)
 
@@ -93,6 +94,7 @@ func (e *Encoder) checkEncodeRefMap(v reflect.Value) (int, bool) {
 			v = v.Elem()
 		}
 		kind = v.Elem().Kind()
+		typ = v.Elem().Type()
 		if kind == reflect.Slice || kind == reflect.Map {
 			addr = unsafe.Pointer(v.Elem().Pointer())
 		} else {
@@ -100,6 +102,7 @@ func (e *Encoder) checkEncodeRefMap(v reflect.Value) (int, bool) {
 		}
 	} else {
 		kind = v.Kind()
+		typ = v.Type()
 		switch kind {
 		case reflect.Slice, reflect.Map:
 			addr = unsafe.Pointer(v.Pointer())
@@ -108,18 +111,14 @@ func (e *Encoder) checkEncodeRefMap(v reflect.Value) (int, bool) {
 		}
 	}
 
-	if elem, ok := e.refMap[addr]; ok {
-		// the array addr is equal to the first elem, which must ignore
-		if elem.kind == kind {
-			// fmt.Printf("-----> find ref: %d, %p, %v, %v\n", elem.index, addr, kind, v)
-			return elem.index, ok
-		}
-		return 0, false
+	key := _refKey{addr, typ}
+	if index, ok := e.refMap[key]; ok {
+		return index, ok
 	}
 
-	n := len(e.refMap)
-	e.refMap[addr] = _refElem{kind, n}
-	// fmt.Printf("---> add ref: %d, %p, %v, %v\n", n, addr, kind, v)
+	// every container written takes the next ordinal, also when a value of
+	// another type lives at the same address
+	e.refMap[key] = len(e.refMap)
 	return 0, false
 }
 
